@@ -31,7 +31,7 @@ def run(call):
     try:
         eid, count, inrole = call["eid"], call["count"], call["inrole"]
         sim, hh, ent = build(eid, count, inrole)
-        vals = numpy.array(call.get("values", [1.0] * len(eid)), dtype=float)
+        vals = numpy.array([float(v) for v in call.get("values", [1.0] * len(eid))], dtype=float)
         role = ent.PARENT if call.get("role") else None
         op = call["op"]
         if op == "sum":
